@@ -317,7 +317,9 @@ LifeOutputOK(S, c) ==
 (*   r   repeat     0 none, 1 normal, 2 pad, 3 reflect                                            *)
 (*   c   clip       0 NULL, 1 one rectangle, 2 two rectangles, 3 / 4 the same two with only the   *)
 (*                  last / the first rectangle changed, 5 the two with x2 <-> y2 of the first,    *)
-(*                  6 the one rectangle with x1 <-> y1                                            *)
+(*                  6 the one rectangle with x1 <-> y1, 7 the EMPTY region;  8 + k: the region k  *)
+(*                  passed through pixman_image_set_clip_region (region16) instead of             *)
+(*                  pixman_image_set_clip_region32 -- two ways of asking for the same clip        *)
 (*   sc  source clipping, cc has_client_clip, ca component alpha, acc accessors: 0 / 1            *)
 (*   am  alpha map  0 none, 1 image A (a8), 2 B (a8r8g8b8 / a4), 3 C (a wide format: the owner's  *)
 (*                  NARROW_FORMAT flag depends on it), 4 D (a8 like A, other pixels);              *)
@@ -329,7 +331,7 @@ LifeOutputOK(S, c) ==
 (*       holder's validate must pick up)                                                          *)
 PropNames == {"t", "f", "r", "c", "sc", "cc", "am", "ao", "ca", "acc", "pal", "d", "dof", "ma"}
 PropRange(n) ==
-    CASE n = "t" -> 0..21 [] n = "f" -> 0..17 [] n = "r" -> 0..3 [] n = "c" -> 0..6
+    CASE n = "t" -> 0..21 [] n = "f" -> 0..17 [] n = "r" -> 0..3 [] n = "c" -> 0..15
       [] n = "am" -> 0..4 [] n = "ao" -> 0..8 [] n = "pal" -> 1..3 [] n = "d" -> 0..2 [] n = "dof" -> 0..8
       [] OTHER -> 0..1
 Defaults == [t |-> 0, f |-> 0, r |-> 0, c |-> 0, sc |-> 0, cc |-> 0, am |-> 0, ao |-> 0, ca |-> 0, acc |-> 0,
@@ -348,7 +350,7 @@ FilterFields(v) ==      \* kind, width, height, first / a middle / last coeffici
       [] v = 16 -> <<"good">> [] v = 17 -> <<"fast">>
 ClipFields(v) ==
     CASE v = 0 -> <<>> [] v = 1 -> <<"r">> [] v = 2 -> <<"a", "b">> [] v = 3 -> <<"a", "b2">> [] v = 4 -> <<"a2", "b">>
-      [] v = 5 -> <<"a swapped", "b">> [] v = 6 -> <<"r swapped">>
+      [] v = 5 -> <<"a swapped", "b">> [] v = 6 -> <<"r swapped">> [] v = 7 -> <<"empty">>
 Exchange(q, i, j) == [q EXCEPT ![i] = q[j], ![j] = q[i]]
 MatrixFields(v) ==
     LET M == <<1, 2, 3, 4, 5, 6, 7, 8, 9>> IN
@@ -361,13 +363,13 @@ MatrixFields(v) ==
 Fields(n, v) ==
     CASE n = "t" -> MatrixFields(v)
       [] n = "f" -> FilterFields(v)
-      [] n = "c" -> ClipFields(v)
+      [] n = "c" -> ClipFields(v % 8)
       [] n \in {"ao", "dof"} -> <<v % 3, v \div 3>>
       [] OTHER -> <<v>>
 
 (* the value a property has once v was set: an identity matrix is no transform; kernel K is kernel K  *)
 (* whatever buffer it was passed in.  (ASSUME: Norm identifies exactly the values with equal fields.) *)
-Norm(n, v) == IF n = "t" /\ v = 1 THEN 0 ELSE IF n = "f" /\ v = 3 THEN 2 ELSE v
+Norm(n, v) == IF n = "t" /\ v = 1 THEN 0 ELSE IF n = "f" /\ v = 3 THEN 2 ELSE IF n = "c" THEN v % 8 ELSE v
 ASSUME \A n \in PropNames : \A u, v \in PropRange(n) \cup {0} :
           (Fields(n, u) = Fields(n, v)) <=> (Norm(n, u) = Norm(n, v))
 NormAll(w) == [n \in DOMAIN w |-> Norm(n, w[n])]
@@ -433,6 +435,8 @@ Applicable(type, n) ==
 SetProp(P, n, v) ==
     LET w == [P.want EXCEPT ![n] = v] IN
     IF EarlyReturn(P, n, v) THEN [P EXCEPT !.want = w]
+    ELSE IF "clip16_empty_keeps_old" \in Bugs /\ n = "c" /\ v = 15       \* the region16 path skips an empty source
+    THEN [P EXCEPT !.want = w, !.dirty = TRUE]
     ELSE IF n = "ma"                     \* pixman_image_set_accessors (A, ...): marks A dirty, not the holder
     THEN [P EXCEPT !.want = w, !.stored[n] = v, !.mdirty = IF "nodirty_ma" \in Bugs THEN @ ELSE TRUE]
     ELSE [P EXCEPT !.want = w,
